@@ -32,6 +32,15 @@ type Config struct {
 	NoStart     bool
 	// NoHostState: no hgrow/hwrite/hcb imports (pure logging hosts only)
 	NoHostState bool
+	// HostModule is the import module name of the host functions (default "env").
+	HostModule string
+}
+
+func (c Config) HostModuleName() string {
+	if c.HostModule == "" {
+		return "env"
+	}
+	return c.HostModule
 }
 
 func DefaultConfig(r *core.Rng) Config {
@@ -65,14 +74,14 @@ type GlobalInfo struct {
 type Program struct {
 	Bin       []byte
 	Cfg       Config
-	Host      []HostImport        // imports from module "env", in import order
-	Funcs     []FuncSig           // exported as "f<i>"
-	Globals   []GlobalInfo        // exported as "g<i>" (numeric/v128 only)
-	Types     []wenc.FuncType     // all function types in the module
-	OpsUsed   map[string]int      // instruction name -> static count
+	Host      []HostImport    // imports from module "env", in import order
+	Funcs     []FuncSig       // exported as "f<i>"
+	Globals   []GlobalInfo    // exported as "g<i>" (numeric/v128 only)
+	Types     []wenc.FuncType // all function types in the module
+	OpsUsed   map[string]int  // instruction name -> static count
 	HasStart  bool
-	FuncIndex map[string]uint32   // export name -> function index
-	Mod       *wenc.Module        `json:"-"` // for reducers: bodies may be edited and Bin re-encoded
+	FuncIndex map[string]uint32 // export name -> function index
+	Mod       *wenc.Module      `json:"-"` // for reducers: bodies may be edited and Bin re-encoded
 }
 
 type HostImport struct {
@@ -90,14 +99,14 @@ type gen struct {
 	sigs []FuncSig // all function indexes (imports first)
 	nImp uint32
 	// globals by type
-	globals   []wenc.GlobalType
-	fuelG     uint32
-	memBytes  uint32 // MemMin * 65536
-	hasMem    bool
-	tableFns  []uint32 // function index stored at table slot i by the active segment (or ^0)
+	globals                  []wenc.GlobalType
+	fuelG                    uint32
+	memBytes                 uint32 // MemMin * 65536
+	hasMem                   bool
+	tableFns                 []uint32 // function index stored at table slot i by the active segment (or ^0)
 	passiveData, passiveElem int
-	cbFunc    uint32
-	typesUsed []wenc.FuncType
+	cbFunc                   uint32
+	typesUsed                []wenc.FuncType
 }
 
 func (g *gen) use(name string) { g.p.OpsUsed[name]++ }
@@ -158,7 +167,7 @@ func Generate(r *core.Rng, cfg Config) *Program {
 			HostImport{Name: "hwrite", Kind: "write", Params: []wenc.ValType{i32, i32}, Results: nil})
 	}
 	for _, h := range g.p.Host {
-		m.ImportFunc("env", h.Name, h.Params, h.Results)
+		m.ImportFunc(cfg.HostModuleName(), h.Name, h.Params, h.Results)
 		g.sigs = append(g.sigs, FuncSig{h.Params, h.Results})
 	}
 	g.nImp = uint32(len(g.p.Host))
@@ -336,18 +345,18 @@ type label struct {
 }
 
 type fgen struct {
-	g       *gen
-	r       *core.Rng
-	c       *wenc.Code
-	self    uint32
-	sig     FuncSig
-	locals  []wenc.ValType // params + locals
-	nparams int
-	labels  []label
-	budget  int
-	scratch map[wenc.ValType]uint32
+	g        *gen
+	r        *core.Rng
+	c        *wenc.Code
+	self     uint32
+	sig      FuncSig
+	locals   []wenc.ValType // params + locals
+	nparams  int
+	labels   []label
+	budget   int
+	scratch  map[wenc.ValType]uint32
 	counters []uint32 // i32 locals reserved as loop counters
-	ctrUsed int
+	ctrUsed  int
 }
 
 func (g *gen) genFunc(i uint32) {
